@@ -96,6 +96,10 @@ type relay struct {
 	// output stores stream output that is ready to be sent over HTTP/2. It provides a way to
 	// guarantee frame order without blocking on each frame being sent.
 	output chan queuedFrame
+	// stopped is closed when relayFrames returns. From then on nothing consumes output, so frames that
+	// become eligible afterwards (the peer relay handling a late WINDOW_UPDATE or SETTINGS frame of the
+	// destination) are dropped instead of being queued.
+	stopped chan struct{}
 
 	enableDebugLogs *bool
 
@@ -128,6 +132,7 @@ func newRelay(
 		connectionWindowSize: defaultInitialWindowSize,
 		outputBuffers:        make(map[uint32]*outputBuffer),
 		output:               make(chan queuedFrame, outputChannelSize),
+		stopped:              make(chan struct{}),
 		enableDebugLogs:      enableDebugLogs,
 	}
 	ret.encoder = hpack.NewEncoder(&ret.reencoded)
@@ -155,7 +160,12 @@ func (r *relay) relayFrames(closing chan bool) error {
 	// Communicates to the consuming writer goroutine that the reader (the calling goroutine of this
 	// method) is done.
 	readerDone := make(chan struct{})
-	defer func() { readerDone <- struct{}{} }()
+	defer func() {
+		// The peer relay emits into r.output as well (window changes announced by the destination). Once
+		// the writer goroutine is gone it must not wait for room in the channel.
+		close(r.stopped)
+		readerDone <- struct{}{}
+	}()
 
 	// Communicates errors occuring on the writer goroutine to the reader goroutine.
 	writerErr := make(chan error, 1)
@@ -374,7 +384,7 @@ func (r *relay) updateWindow(f *http2.WindowUpdateFrame) {
 	r.flowMu.Lock()
 	w := r.outputBuffer(f.StreamID)
 	w.windowSize += int(f.Increment)
-	w.emitEligibleFrames(r.output, &r.connectionWindowSize)
+	w.emitEligibleFrames(r.output, r.stopped, &r.connectionWindowSize)
 	r.flowMu.Unlock()
 }
 
@@ -403,7 +413,7 @@ func (r *relay) data(id uint32, data []byte, streamEnded bool) error {
 
 		r.flowMu.Lock()
 		w.enqueue(f)
-		w.emitEligibleFrames(r.output, &r.connectionWindowSize)
+		w.emitEligibleFrames(r.output, r.stopped, &r.connectionWindowSize)
 		r.flowMu.Unlock()
 
 		// Some protocols send empty data frames with END_STREAM so the check is done here at the end
@@ -490,14 +500,14 @@ func (r *relay) enqueueFrame(f queuedFrame) {
 	r.flowMu.Lock()
 	w := r.outputBuffer(f.StreamID())
 	w.enqueue(f)
-	w.emitEligibleFrames(r.output, &r.connectionWindowSize)
+	w.emitEligibleFrames(r.output, r.stopped, &r.connectionWindowSize)
 	r.flowMu.Unlock()
 }
 
 func (r *relay) sendQueuedFramesUnderWindowSize() {
 	r.flowMu.Lock()
 	for _, w := range r.outputBuffers {
-		w.emitEligibleFrames(r.output, &r.connectionWindowSize)
+		w.emitEligibleFrames(r.output, r.stopped, &r.connectionWindowSize)
 	}
 	r.flowMu.Unlock()
 }
@@ -577,13 +587,17 @@ type outputBuffer struct {
 // given connection window size. It updates the given connectionWindowSize if applicable.
 //
 // This is not thread-safe. The caller should be holding `relay.flowMu`.
-func (w *outputBuffer) emitEligibleFrames(output chan queuedFrame, connectionWindowSize *int) {
+func (w *outputBuffer) emitEligibleFrames(output chan queuedFrame, stopped <-chan struct{}, connectionWindowSize *int) {
 	for e := w.queue.Front(); e != nil; {
 		f := e.Value.(queuedFrame)
 		if f.flowControlSize() > *connectionWindowSize || f.flowControlSize() > w.windowSize {
 			break
 		}
-		output <- f
+		select {
+		case output <- f:
+		case <-stopped:
+			// The relay has stopped: nobody is left to send the frame.
+		}
 
 		*connectionWindowSize -= f.flowControlSize()
 		w.windowSize -= f.flowControlSize()
